@@ -18,7 +18,6 @@ INVARIANTS
   C01_FinishedRan
   C01_JobAgrees
   C02_Registry
-  C02_QuiescentOk
   C02_ClosedJobsComplete
   C03_NeverStartedAfterFailedDep
   C03_PropagateAtRest
@@ -41,5 +40,7 @@ INVARIANTS
   C13_CompletedOnce
   C14_AbortAllOnExceed
   C14_ExceededStopped
+  C01_OutcomeAtRest
+  C02_QuiescentOk
 PROPERTIES
   StepProps
